@@ -7,7 +7,7 @@ wt=/tmp/cf-$id; out=/tmp/seedconfirm; mkdir -p $out
 log=$out/$id.log; : > $log
 git -C /repo worktree remove --force $wt 2>/dev/null; rm -rf $wt
 git -C /repo worktree add -q $wt HEAD >>$log 2>&1 || { echo "$id worktree failed"; exit 2; }
-( cmake -G Ninja -S $wt -B $wt/_b -DCMAKE_BUILD_TYPE=RelWithDebInfo -DCMAKE_C_FLAGS=-Wno-error -DBUILD_TESTING=ON && cmake --build $wt/_b ) >>$log 2>&1 || { echo "$id base build failed"; exit 2; }
+( cmake -G Ninja -S $wt -B $wt/_b -DCMAKE_BUILD_TYPE=RelWithDebInfo -DCMAKE_C_FLAGS=-Wno-error -DBUILD_TESTING=${BUILD_TESTING:-ON} && cmake --build $wt/_b ) >>$log 2>&1 || { echo "$id base build failed"; exit 2; }
 cp -r $src $wt/_seed
 export OMPI_ALLOW_RUN_AS_ROOT=1 OMPI_ALLOW_RUN_AS_ROOT_CONFIRM=1
 demo() { ( cd $wt/_seed && timeout ${DEMO_TIMEOUT:-1500} bash ./run_demo.sh $wt/_b ) >>$log 2>&1; echo $?; }
@@ -17,16 +17,20 @@ build=1; tests_ok=-1; d1=-1; failed=""
 if [ $applies = 1 ]; then
   cmake --build $wt/_b >>$log 2>&1 || build=0
   if [ $build = 1 ]; then
-    ( cd $wt/_b && env -u OMPI_ALLOW_RUN_AS_ROOT -u OMPI_ALLOW_RUN_AS_ROOT_CONFIRM ctest -j${CTEST_J:-6} --timeout 900 > $out/$id.ctest 2>&1 )
+    [ -n "$SKIP_TESTS" ] || ( cd $wt/_b && env -u OMPI_ALLOW_RUN_AS_ROOT -u OMPI_ALLOW_RUN_AS_ROOT_CONFIRM ctest -j${CTEST_J:-6} --timeout 900 -E ':mp|runtime/scheduling' > $out/$id.ctest 2>&1
+      # tests that failed or timed out (the box is shared and may be overloaded) get one more chance, one at a time
+      env -u OMPI_ALLOW_RUN_AS_ROOT -u OMPI_ALLOW_RUN_AS_ROOT_CONFIRM ctest --rerun-failed -j2 --timeout 2400 >> $out/$id.ctest 2>&1 )
     failed=$(python3 - $out/$id.ctest <<'PY'
 import sys,json,re
 stable=set(x.split('::')[0] for x in json.load(open('/root/.vp/BASELINE.json'))['stable_pass'])
-txt=open(sys.argv[1]).read()
+import os
+txt=open(sys.argv[1]).read() if os.path.exists(sys.argv[1]) else ''
 passed=set(re.findall(r'Test\s+#\d+:\s+(\S+)\s+\.+\s+Passed',txt))
 print(' '.join(sorted(stable-passed)))
 PY
 )
     [ -z "$failed" ] && tests_ok=1 || tests_ok=0
+    [ -n "$SKIP_TESTS" ] && { tests_ok=-1; failed=""; }
     echo "=== demo on modified" >>$log; d1=$(demo)
   fi
 fi
